@@ -350,3 +350,6 @@ def run(ctx):
             else:
                 rs.unrec("receiver of recursive substitute: %s" % norm(recv))
         ctx.floor(rs, 2)
+
+    from . import c05_deep
+    c05_deep.run(ctx)
